@@ -366,7 +366,7 @@ def peak_finder(frequency, measurement, cnr=10, edge=True, freq_band=None, rtol=
                 measurement[i], measurement[i + 1], rtol=rtol
             ):
                 i += 1
-            if measurement[i] > measurement[i + 1]:
+            if i < len(measurement) - 1 and measurement[i] > measurement[i + 1]:
                 mid = (start + i) // 2
                 peaks.append(mid)
         i += 1
